@@ -425,9 +425,9 @@ fn check_c06_fit<T: Sc>(ctx: &Ctx, c: &Case, su: &Setup<T>) {
     let cj = || case_json(c);
     let Some(w) = su.w.clone() else { return };
     let solver = || c.solver.make::<T>();
-    let build_w = || prob::build(make_t::<T>(&su.spec, c.prov, &su.a0), &su.y, Some(&w), None, su.api, c.par).unwrap();
+    let build_w = || prob::build(make_t::<T>(&su.spec, c.prov, &su.a0), &su.y, Some(&w), c.eps.map(|e| T::f(e)), su.api, c.par).unwrap();
     let twin: Box<dyn Prob<T>> = match c.w {
-        WKind::Ones => prob::build(make_t::<T>(&su.spec, c.prov, &su.a0), &su.y, None, None, su.api, c.par).unwrap(),
+        WKind::Ones => prob::build(make_t::<T>(&su.spec, c.prov, &su.a0), &su.y, None, c.eps.map(|e| T::f(e)), su.api, c.par).unwrap(),
         _ => {
             let mut ys = su.y.clone();
             for j in 0..ys.ncols() {
@@ -435,7 +435,7 @@ fn check_c06_fit<T: Sc>(ctx: &Ctx, c: &Case, su: &Setup<T>) {
                     ys[(i, j)] = ys[(i, j)] * w[i];
                 }
             }
-            prob::build(RowScaled::wrap(make_t::<T>(&su.spec, c.prov, &su.a0), w.clone()), &ys, None, None, su.api, c.par).unwrap()
+            prob::build(RowScaled::wrap(make_t::<T>(&su.spec, c.prov, &su.a0), w.clone()), &ys, None, c.eps.map(|e| T::f(e)), su.api, c.par).unwrap()
         }
     };
     let stats_possible = !c.mrhs_api;
@@ -519,7 +519,7 @@ fn check_c07_fit<T: Sc>(ctx: &Ctx, c: &Case, su: &Setup<T>) {
     if s_ < 2 {
         return;
     }
-    let fit_with = |y: &DMatrix<T>| -> FitOut<T> { prob::build(make_t::<T>(&su.spec, c.prov, &su.a0), y, su.w.as_ref(), None, Api::Mrhs, c.par).unwrap().fit(c.solver.make::<T>()) };
+    let fit_with = |y: &DMatrix<T>| -> FitOut<T> { prob::build(make_t::<T>(&su.spec, c.prov, &su.a0), y, su.w.as_ref(), c.eps.map(|e| T::f(e)), Api::Mrhs, c.par).unwrap().fit(c.solver.make::<T>()) };
     let base = match guarded(|| fit_with(&su.y)) {
         Ok(f) => f,
         Err(m) => {
@@ -571,7 +571,7 @@ fn check_c11_fit<T: Sc>(ctx: &Ctx, c: &Case, su: &Setup<T>, pools: &[usize]) {
         let pool = rayon::ThreadPoolBuilder::new().num_threads(k).build().expect("pool");
         let r = guarded(|| {
             pool.install(|| {
-                let p = prob::build(make_t::<T>(&su.spec, c.prov, &su.a0), &su.y, su.w.as_ref(), None, su.api, true).unwrap();
+                let p = prob::build(make_t::<T>(&su.spec, c.prov, &su.a0), &su.y, su.w.as_ref(), c.eps.map(|e| T::f(e)), su.api, true).unwrap();
                 let before = observe(p.as_ref());
                 let conv = observe(p.clone_box().into_sequential().as_ref());
                 (before == conv, p.fit(c.solver.make::<T>()))
